@@ -65,6 +65,11 @@ def loopE (cfg : Cfg) (failAt : Nat) :
 def reportsCall (cfg : Cfg) (agreed : List CheckResult) (failAt : Nat) : List (List CheckResult) × Bool :=
   loopE cfg failAt agreed [] 0 0 []
 
+/-- `Reports` on raw outcome bytes: bytes that do not decode and validate (`valid = false`) make the call fail before
+anything is built (`return nil, err`) -/
+def reportsOnBytes (cfg : Cfg) (valid : Bool) (agreed : List CheckResult) (failAt : Nat) : List (List CheckResult) × Bool :=
+  if valid then reportsCall cfg agreed failAt else ([], true)
+
 /-- what the encoder was handed, call by call (the failing call included) -/
 def encoderCalls (cfg : Cfg) (agreed : List CheckResult) (failAt : Nat) : List (List CheckResult) :=
   let all := reports cfg agreed
